@@ -72,6 +72,7 @@ def build():
         add('once_block_block', 'once_basic.c', ['caller_block', 'caller_block', 'final_check'], R, ONCE_UNITS, nfinal=1, excl=ONLY_MU, extra=BIG, timeout=3000)
         add('once_block_spin', 'once_basic.c', ['caller_block', 'caller_spin', 'final_check'], R, ONCE_UNITS, nfinal=1, excl=ONLY_MU, extra=BIG, timeout=3000)
         add('once_spin_argspin', 'once_basic.c', ['caller_spin', 'caller_arg_spin', 'final_check'], R, ONCE_UNITS, nfinal=1, excl=ONLY_MU, extra=BIG, timeout=3000)
+        add('once_nested', 'once_basic.c', ['caller_nested', 'caller_nested', 'final_check_b'], R, ONCE_UNITS, nfinal=1, excl=ONLY_MU, extra=BIG, timeout=6000)
         add('once_arg_twice', 'once_basic.c', ['caller_arg', 'caller_twice', 'final_check'], R, ONCE_UNITS, nfinal=1, excl=ONLY_MU, extra=BIG, timeout=3000)
         add('once_block_block_other', 'once_basic.c', ['caller_block', 'caller_block', 'caller_other', 'final_check_b'], R, ONCE_UNITS, nfinal=1, excl=ONLY_MU, extra=BIG, timeout=6000)
     # ---- counter
@@ -83,25 +84,35 @@ def build():
         add('ctr_dec_dec_late', 'counter_basic.c', ['dec', 'dec', 'late_waiter', 'setup', 'final_check'], R, CV_UNITS, ninit=1, nfinal=1, pools=dict(CTR), excl=NOTE_FN + CVW_FN, timeout=6000)
     # ---- notes
     NOTE = {'note': {'type': 'struct.nsync_note_s_', 'count': 4}}
+    # notes without deadlines: the lazy-expiry notify inside nsync_note_notified_deadline_ is asserted unreachable (and the clock is frozen)
+    NOEXP = {'exclude_calls': [['nsync_note_notified_deadline_', 'notify']], 'max_rec': 3}
     for R in (3, 4):
-        add('note_notifyroot_waitchild', 'note_basic.c', ['notify_root', 'wait_child', 'setup_pair', 'final_pair_notified'], R, CV_UNITS, ninit=1, nfinal=1, pools=dict(NOTE), excl=CTR_FN + CVW_FN, timeout=6000)
-        add('note_notifyroot_pollchild', 'note_basic.c', ['notify_root', 'poll_child', 'setup_pair', 'final_pair_notified'], R, CV_UNITS, ninit=1, nfinal=1, pools=dict(NOTE), excl=CTR_FN + CVW_FN, timeout=6000)
-        add('note_notifyroot_notifychild', 'note_basic.c', ['notify_root', 'notify_child', 'setup_tree', 'final_tree_notified'], R, CV_UNITS, ninit=1, nfinal=1, pools=dict(NOTE), excl=CTR_FN + CVW_FN, timeout=6000)
-        add('note_notifychild_siblings', 'note_basic.c', ['notify_child', 'poll_child', 'setup_pair', 'final_siblings'], R, CV_UNITS, ninit=1, nfinal=1, pools=dict(NOTE), excl=CTR_FN + CVW_FN, timeout=6000)
-        add('note_newunderroot_notifyroot', 'note_basic.c', ['new_under_root', 'notify_root', 'setup_pair', 'final_new_child_notified'], R, CV_UNITS, ninit=1, nfinal=1, pools=dict(NOTE), excl=CTR_FN + CVW_FN, timeout=6000)
-        add('note_freechild_notifyroot', 'note_basic.c', ['free_child', 'notify_root', 'setup_tree', 'final_after_free_child'], R, CV_UNITS, ninit=1, nfinal=1, pools=dict(NOTE), excl=CTR_FN + CVW_FN, timeout=6000)
-        add('note_freegrand_freechild', 'note_basic.c', ['free_grand', 'free_child', 'setup_tree', 'final_siblings'], R, CV_UNITS, ninit=1, nfinal=1, pools=dict(NOTE), excl=CTR_FN + CVW_FN, timeout=6000)
+        add('note_notifyroot_waitchild', 'note_basic.c', ['notify_root', 'wait_child', 'setup_pair', 'final_pair_notified'], R, CV_UNITS, ninit=1, nfinal=1, pools=dict(NOTE), extra=NOEXP, defines=['VF_FROZEN_CLOCK'], excl=CTR_FN + CVW_FN, timeout=6000)
+        add('note_notifyroot_pollchild', 'note_basic.c', ['notify_root', 'poll_child', 'setup_pair', 'final_pair_notified'], R, CV_UNITS, ninit=1, nfinal=1, pools=dict(NOTE), extra=NOEXP, defines=['VF_FROZEN_CLOCK'], excl=CTR_FN + CVW_FN, timeout=6000)
+        add('note_notifyroot_notifychild', 'note_basic.c', ['notify_root', 'notify_child', 'setup_tree', 'final_tree_notified'], R, CV_UNITS, ninit=1, nfinal=1, pools=dict(NOTE), extra=NOEXP, defines=['VF_FROZEN_CLOCK'], excl=CTR_FN + CVW_FN, timeout=6000)
+        add('note_notifychild_siblings', 'note_basic.c', ['notify_child', 'poll_child', 'setup_pair', 'final_siblings'], R, CV_UNITS, ninit=1, nfinal=1, pools=dict(NOTE), extra=NOEXP, defines=['VF_FROZEN_CLOCK'], excl=CTR_FN + CVW_FN, timeout=6000)
+        add('note_newunderroot_notifyroot', 'note_basic.c', ['new_under_root', 'notify_root', 'setup_pair', 'final_new_child_notified'], R, CV_UNITS, ninit=1, nfinal=1, pools=dict(NOTE), extra=NOEXP, defines=['VF_FROZEN_CLOCK'], excl=CTR_FN + CVW_FN, timeout=6000)
+        add('note_freechild_notifyroot', 'note_basic.c', ['free_child', 'notify_root', 'setup_tree', 'final_after_free_child'], R, CV_UNITS, ninit=1, nfinal=1, pools=dict(NOTE), extra=NOEXP, defines=['VF_FROZEN_CLOCK'], excl=CTR_FN + CVW_FN, timeout=6000)
+        add('note_freegrand_freechild', 'note_basic.c', ['free_grand', 'free_child', 'setup_tree', 'final_siblings'], R, CV_UNITS, ninit=1, nfinal=1, pools=dict(NOTE), extra=NOEXP, defines=['VF_FROZEN_CLOCK'], excl=CTR_FN + CVW_FN, timeout=6000)
     # ---- wait_n
     WN = {'note': {'type': 'struct.nsync_note_s_', 'count': 1}, 'counter': {'type': 'struct.nsync_counter_s_', 'count': 1},
           'nwarr': {'type': 'struct.nsync_waiter_s', 'array': 5, 'count': 1}}
+    NOEXP_WN = NOEXP
     WNU = {'*': 1, 'nsync_wait_n': 2}
     for R in (3, 4):
-        add('wn_notectr_notifier', 'waitn_basic.c', ['waitn_note_ctr', 'notifier', 'setup', 'final_ready_again'], R, CV_UNITS, ninit=1, nfinal=1, pools=dict(WN), excl=CVW_FN, unroll=WNU, timeout=6000)
-        add('wn_notectr_dec', 'waitn_basic.c', ['waitn_note_ctr', 'decrementer', 'setup', 'final_ready_again'], R, CV_UNITS, ninit=1, nfinal=1, pools=dict(WN), excl=CVW_FN, unroll=WNU, timeout=6000)
-        add('wn_cvnote_signaller', 'waitn_basic.c', ['waitn_cv_note', 'signaller', 'setup', 'final_ready_again'], R, CV_UNITS, ninit=1, nfinal=1, pools=dict(WN), excl=CTR_FN, unroll=WNU, timeout=6000)
-        add('wn_cvnote_bcastafter', 'waitn_basic.c', ['waitn_cv_note', 'broadcaster_after', 'setup', 'final_ready_again'], R, CV_UNITS, ninit=1, nfinal=1, pools=dict(WN), excl=CTR_FN, unroll=WNU, timeout=6000)
-        add('wn_cvnote_nodl_signaller', 'waitn_basic.c', ['waitn_cv_note_nodl', 'signaller', 'setup', 'final_ready_again'], R, CV_UNITS, ninit=1, nfinal=1, pools=dict(WN), excl=CTR_FN, unroll=WNU, timeout=6000)
-        add('wn_cvnote_plain_signaller', 'waitn_basic.c', ['waitn_cv_note', 'plain_cv_waiter', 'signaller', 'setup', 'final_ready_again'], R, CV_UNITS, ninit=1, nfinal=1, pools=dict(WN), excl=CTR_FN, unroll=WNU, timeout=9000)
+        add('wn_notectr_notifier', 'waitn_basic.c', ['waitn_note_ctr', 'notifier', 'setup', 'final_ready_again'], R, CV_UNITS, ninit=1, nfinal=1, pools=dict(WN), extra=NOEXP, excl=CVW_FN, unroll=WNU, timeout=6000)
+        add('wn_notectr_dec', 'waitn_basic.c', ['waitn_note_ctr', 'decrementer', 'setup', 'final_ready_again'], R, CV_UNITS, ninit=1, nfinal=1, pools=dict(WN), extra=NOEXP, excl=CVW_FN, unroll=WNU, timeout=6000)
+        add('wn_cvnote_signaller', 'waitn_basic.c', ['waitn_cv_note', 'signaller', 'setup', 'final_ready_again'], R, CV_UNITS, ninit=1, nfinal=1, pools=dict(WN), extra=NOEXP, excl=CTR_FN, unroll=WNU, timeout=6000)
+        add('wn_cvnote_bcastafter', 'waitn_basic.c', ['waitn_cv_note', 'broadcaster_after', 'setup', 'final_ready_again'], R, CV_UNITS, ninit=1, nfinal=1, pools=dict(WN), extra=NOEXP, excl=CTR_FN, unroll=WNU, timeout=6000)
+        add('wn_cvnote_nodl_signaller', 'waitn_basic.c', ['waitn_cv_note_nodl', 'signaller', 'setup', 'final_ready_again'], R, CV_UNITS, ninit=1, nfinal=1, pools=dict(WN), extra=NOEXP, excl=CTR_FN, unroll=WNU, timeout=6000)
+        add('wn_cvnote_plain_signaller', 'waitn_basic.c', ['waitn_cv_note', 'plain_cv_waiter', 'signaller', 'setup', 'final_ready_again'], R, CV_UNITS, ninit=1, nfinal=1, pools=dict(WN), extra=NOEXP, excl=CTR_FN, unroll=WNU, timeout=9000)
+    WC = {'counter': {'type': 'struct.nsync_counter_s_', 'count': 1}, 'nwarr': {'type': 'struct.nsync_waiter_s', 'array': 5, 'count': 1}}
+    for R in (3, 4):
+        add('wn_cvctr_signaller', 'waitn_basic.c', ['waitn_cv_ctr', 'signaller', 'setup_ctr', 'final_ready_again_noted'], R, CV_UNITS, ninit=1, nfinal=1, pools=dict(WC), unroll=WNU, excl=NOTE_FN, timeout=6000)
+        add('wn_cvctr_dec', 'waitn_basic.c', ['waitn_cv_ctr', 'decrementer', 'setup_ctr', 'final_ready_again_noted'], R, CV_UNITS, ninit=1, nfinal=1, pools=dict(WC), unroll=WNU, excl=NOTE_FN, timeout=6000)
+        add('wn_cvctr_bcastafter', 'waitn_basic.c', ['waitn_cv_ctr', 'broadcaster_after', 'setup_ctr', 'final_ready_again_noted'], R, CV_UNITS, ninit=1, nfinal=1, pools=dict(WC), unroll=WNU, excl=NOTE_FN, timeout=6000)
+        add('wn_ctr_dec', 'waitn_basic.c', ['waitn_ctr', 'decrementer', 'setup_ctr', 'final_ready_again_noted'], R, CV_UNITS, ninit=1, nfinal=1, pools=dict(WC), unroll=WNU, excl=NOTE_FN + CVW_FN, timeout=6000)
+        add('wn_cvctr_plain_signaller', 'waitn_basic.c', ['waitn_cv_ctr', 'plain_cv_waiter', 'signaller', 'setup_ctr', 'final_ready_again_noted'], R, CV_UNITS, ninit=1, nfinal=1, pools=dict(WC), unroll=WNU, excl=NOTE_FN, timeout=9000)
     # ---- refcount (C13)
     OBJ = {'obj': {'type': 'struct.obj', 'count': 1}}
     for R in (3, 4, 5):
@@ -112,9 +123,40 @@ def build():
     # ---- debug (C16)
     NOOP = {'noop': ['emit_print', 'emit_c'], 'max_cells': 400}
     for R in (3, 4):
-        add('dbg_locker_locker_mudebug', 'debug_conc.c', ['locker', 'locker', 'mu_debugger', 'final_check'], R, DBG_UNITS, nfinal=1, excl=ONLY_MU, extra=NOOP, timeout=6000)
-        add('dbg_locker_rlocker_mudebug', 'debug_conc.c', ['locker', 'rlocker', 'mu_debugger', 'final_check'], R, DBG_UNITS, nfinal=1, excl=ONLY_MU, extra=NOOP, timeout=6000)
-        add('dbg_cvwaiter_signaller_cvdebug', 'debug_conc.c', ['cv_waiter', 'cv_signaller', 'cv_debugger', 'final_check'], R, DBG_UNITS, nfinal=1, excl=ONLY_MU, extra=NOOP, timeout=6000)
+        DU = {'*': 1, 'emit_word': 10, 'emit_waiters': 3}
+        add('dbg_locker_locker_mudebug', 'debug_conc.c', ['locker', 'locker', 'mu_debugger', 'final_check'], R, DBG_UNITS, nfinal=1, excl=ONLY_MU, extra=NOOP, unroll=DU, timeout=6000)
+        add('dbg_locker_mudebug', 'debug_conc.c', ['locker', 'mu_debugger', 'final_check'], R, DBG_UNITS, nfinal=1, excl=ONLY_MU, extra=NOOP, unroll=DU, timeout=6000)
+        add('dbg_locker_rlocker_mudebug', 'debug_conc.c', ['locker', 'rlocker', 'mu_debugger', 'final_check'], R, DBG_UNITS, nfinal=1, excl=ONLY_MU, extra=NOOP, unroll=DU, timeout=6000)
+        add('dbg_cvwaiter_signaller_cvdebug', 'debug_conc.c', ['cv_waiter', 'cv_signaller', 'cv_debugger', 'final_check'], R, DBG_UNITS, nfinal=1, excl=ONLY_MU, extra=NOOP, unroll=DU, timeout=6000)
+    # ---- C03: happens-before from the declared orders (vector clocks in the runtime)
+    HB = {'hb': True}
+    def hb(name, threads, R, units, **kw):
+        ex = dict(HB); ex.update(kw.pop('extra', {}))
+        add('hb_' + name, 'hb_basic.c', threads, R, units, extra=ex, defines=['VF_HB'] + kw.pop('defines', []), **kw)
+    for R in (3, 4):
+        hb('w_w', ['t_writer', 't_writer', 'final_x'], R, MU_UNITS, nfinal=1, timeout=3000)
+        hb('w_r', ['t_writer', 't_reader', 'final_x'], R, MU_UNITS, nfinal=1, timeout=3000)
+        hb('w_try', ['t_writer', 't_trywriter', 'final_x'], R, MU_UNITS, nfinal=1, timeout=3000)
+        hb('w2_w', ['t_writer2', 't_writer', 'final_x'], R, MU_UNITS, nfinal=1, timeout=3000)
+        hb('w_w_w', ['t_writer', 't_writer', 't_writer', 'final_x'], R, MU_UNITS, nfinal=1, timeout=9000)
+        hb('cv', ['t_cv_waiter', 't_cv_signaller', 'final_x'], R, CV_UNITS, nfinal=1, excl=ONLY_MU, timeout=6000)
+        hb('mw', ['t_mw_waiter', 't_mw_setter', 'final_x'], R, CV_UNITS, nfinal=1, excl=ONLY_MU, timeout=6000)
+        hb('once', ['t_once', 't_once', 'final_x'], R, ONCE_UNITS, nfinal=1, excl=ONLY_MU, extra={'max_cells': 400}, timeout=6000)
+        hb('once_spin', ['t_once_spin', 't_once_spin', 'final_x'], R, ONCE_UNITS, nfinal=1, excl=ONLY_MU, extra={'max_cells': 400}, timeout=3000)
+        hb('ctr_wait', ['t_ctr_dec', 't_ctr_waiter', 'setup_ctr', 'final_x'], R, CV_UNITS, ninit=1, nfinal=1, pools={'counter': {'type': 'struct.nsync_counter_s_', 'count': 1}},
+           excl=NOTE_FN + CVW_FN, timeout=6000)
+        hb('ctr_obs', ['t_ctr_dec', 't_ctr_observer', 'setup_ctr', 'final_x'], R, CV_UNITS, ninit=1, nfinal=1, pools={'counter': {'type': 'struct.nsync_counter_s_', 'count': 1}},
+           excl=NOTE_FN + CVW_FN, timeout=3000)
+        hb('note_obs', ['t_notifier', 't_note_observer', 'setup_note', 'final_x'], R, CV_UNITS, ninit=1, nfinal=1, pools={'note': {'type': 'struct.nsync_note_s_', 'count': 1}},
+           excl=CTR_FN + CVW_FN, extra={'exclude_calls': [['nsync_note_notified_deadline_', 'notify']], 'max_rec': 2}, defines=['VF_FROZEN_CLOCK'], timeout=6000)
+    # ---- C19: allocation failure (single thread, one context, loops unrolled)
+    AF = {'malloc_fail_flag': 'fail_alloc', 'exclude_calls': [['nsync_note_notified_deadline_', 'notify']], 'max_rec': 2}
+    for U in (2, 3):
+        add('af_note_U%d' % U, 'alloc_fail.c', ['h_note'], 1, CV_UNITS, pools={'note': {'type': 'struct.nsync_note_s_', 'count': 4}}, extra=AF,
+            excl=CTR_FN + CVW_FN + ['nsync_mu_lock_slow_', 'nsync_mu_unlock_slow_'],   # single thread: the contended paths are asserted unreachable (a mutex left locked trips that assertion)
+            unroll={'*': U, 'nchildren': 4, 'note_notify_child': 3}, defines=['VF_FROZEN_CLOCK'], timeout=1800)
+        add('af_counter_U%d' % U, 'alloc_fail.c', ['h_counter'], 1, CV_UNITS, pools={'counter': {'type': 'struct.nsync_counter_s_', 'count': 1}}, extra=AF, excl=NOTE_FN + CVW_FN,
+            unroll={'*': U}, defines=['VF_FROZEN_CLOCK'], timeout=600)
     # ---- E2: thread-modular step checks (one thread + environment), see harness/e3/e2_word.c
     E2U = CV_UNITS + ['internal/debug.c']
     E2X = {'atomic_hooks': {'pre': 'vf_env', 'write': 'vf_guar'}, 'noop': ['emit_print', 'emit_c'], 'max_cells': 400, 'tls_init': {'waiter_for_thread': ['MEW']}}
@@ -123,6 +165,11 @@ def build():
         for U in (2, 3):
             sc = add('e2_%s_U%d' % (fn, U), 'e2_word.c', [fn], 1, E2U, excl=ONLY_MU, extra=E2X, pools={'extra_waiters': 0}, timeout=1800, unroll={'*': U, 'setup': 3, 'setup_cv': 3, 'rely_ok': 3, 'emit_word': 10, 'emit_waiters': 4},
                      defines=['VF_NO_DEADLOCK_CHECK'])
+    # C14: the for(;;) of nsync_mu_lock_slow_ unrolled past LONG_WAIT_THRESHOLD (30) sleeps
+    add('e2_h_lock_long_U33', 'e2_word.c', ['h_lock_long'], 1, E2U, excl=ONLY_MU, extra=E2X, pools={'extra_waiters': 0}, timeout=3000,
+        unroll={'*': 2, 'setup': 3, 'setup_cv': 3, 'rely_ok': 3, 'nsync_mu_lock_slow_#0': 33}, defines=['VF_NO_DEADLOCK_CHECK'])
+    add('e2_h_lock_long_U5', 'e2_word.c', ['h_lock_long'], 1, E2U, excl=ONLY_MU, extra=E2X, pools={'extra_waiters': 0}, timeout=3000,
+        unroll={'*': 2, 'setup': 3, 'setup_cv': 3, 'rely_ok': 3, 'nsync_mu_lock_slow_#0': 5}, defines=['VF_NO_DEADLOCK_CHECK'])
     return S
 
 
